@@ -29,6 +29,7 @@ RULE = ("all intervals [s,e) with e-s>=min_size of each data matrix, per cost x 
         "documented RuntimeError is expected, or it is a batch/history comparison of >=2 rows; "
         "distinct = (cost, parameter kind, data label, s, e | batch kind)")
 
+OBS = {}
 MIN_SIZE = {"L2Cost": lambda p: 1, "GaussianVarCost": lambda p: 2, "GaussianCovCost": lambda p: p + 1}
 UNIVARIATE = {"L2Cost": True, "GaussianVarCost": True, "GaussianCovCost": False}
 
@@ -53,6 +54,10 @@ def datasets(tier, seed):
                 yield f"grid{r}-n{n}p{p}", g, "grid"
                 x = rng.normal(size=(n, p)) * rng.uniform(0.5, 3.0, size=p) + rng.uniform(-10, 10, size=p)
                 yield f"normal{r}-n{n}p{p}", x, "normal"
+                if n >= 4 and r == 0:            # two-decimal data with a repeated value: exercises the skip rule (observation only)
+                    d = np.round(x, 2)
+                    d[n - 2, 0] = d[n - 3, 0]
+                    yield f"decimal{r}-n{n}p{p}", d, "normal"
     if tier != "quick":
         for n, p in ((12, 2), (20, 3)):                       # a larger matrix (prefix sums accumulate more rounding)
             yield f"normal-n{n}p{p}", rng.normal(size=(n, p)) * 2 + rng.uniform(-20, 20, size=p), "normal"
@@ -202,6 +207,15 @@ def check_single(rec, cost, kind, jparam, container, X, family, s, e, sc=None):
         rec.violation(f"{cost}:{mode}:shape", f"{cost}({kind}).evaluate of 1 interval on p={p} has shape {got.shape}, expected {(1, q)}",
                       "C01.shape", inp)
         return True, None
+    if not mask.all():            # skipped (ill-conditioned) column-slices: keep the largest deviation as an observation only
+        dev = float(np.max(np.abs(got[0][~mask] - np.asarray(val)[~mask])))
+        o = OBS.setdefault("GaussianVarCost optimal: column-slices skipped as ill-conditioned (constant slice of inexact data, or "
+                           "variance < 1e-9*(1+mean^2)); the floored value there depends on prefix-sum rounding",
+                           {"skipped": 0, "max_abs_deviation": 0.0, "example": None})
+        o["skipped"] += 1
+        if dev > o["max_abs_deviation"]:
+            o["max_abs_deviation"] = dev
+            o["example"] = jsonable({"X": X, "interval": [s, e], "evaluate": got[0], "floored_definition": val})
     if not close(got[0][mask], np.asarray(val)[mask]):
         rec.violation(f"{cost}:{mode}:value", f"{cost}({kind}, param={jparam}).evaluate([[{s},{e}]]) = {got[0].tolist()} but the direct "
                       f"computation from X[{s}:{e}] gives {np.asarray(val).tolist()}", "C01.value", inp)
@@ -285,6 +299,7 @@ def run_matrix(rec, rng, label, X, family, costs=("L2Cost", "GaussianVarCost", "
 def run(tier="quick", seed=0, repo="/repo"):
     use_repo(repo)
     rec = Recorder(target="skchange/costs/base.py::BaseCost._evaluate")
+    OBS.clear()
     rng = np.random.default_rng(seed + 1)
     shapes = set()
     for label, X, family in datasets(tier, seed):
@@ -293,7 +308,7 @@ def run(tier="quick", seed=0, repo="/repo"):
     nmax = max(s[0] for s in shapes)
     return rec.result(RULE, f"n in 1..{7 if tier == 'quick' else 8} (thorough also one 12x2 and one 20x3 matrix), p in 1..3, "
                             f"{len(shapes)} shapes, every admissible (s,e); 3 costs x 6-7 parameter kinds; "
-                            f"intervals exhaustive, data matrices seeded (max n={nmax})", exhaustive=False)
+                            f"intervals exhaustive, data matrices seeded (max n={nmax})", exhaustive=False, observations=dict(OBS))
 
 
 def replay(inp, repo="/repo"):
